@@ -227,7 +227,7 @@ def run(ctx):
     sv = ctx.anchor(CORE + "round2::SignatureShare::<C>::verify")
     if sv:
         v = FnView.get(P, sv)
-        errs = [v.cx.operand(rv["ops"][0]) for (b, k, rv) in ret_writes(sv) if k == "err"]
+        errs = err_values(P, sv, v)
         good = len(errs) == 1 and errs[0][0] == "agg" and errs[0][3] == "InvalidSignatureShare"
         if good:
             c = dict(errs[0][4]).get("culprits")
